@@ -351,3 +351,43 @@ Theorem no_deadlock_global : forall tr s, grun_rel tr s -> gfinal s = false -> e
 Proof. intros tr s H Hf. destruct (grun_GInv _ _ H) as [hold I]. eapply no_deadlock_inv; eauto. Qed.
 
 End GlobalProofs.
+
+(* ------------------------------------------------------------------------------------------------ *)
+(* The checker for recorded traces is sound: an accepted trace is a complete execution of the system  *)
+
+Lemma grun_sound : forall Rp Ra strict GG cap tr (s s' : gstate Rp Ra) tr0,
+  grun Rp Ra strict GG cap s tr = Some s' -> grun_rel Rp Ra strict GG cap tr0 s -> grun_rel Rp Ra strict GG cap (tr0 ++ tr) s'.
+Proof.
+  induction tr; simpl; intros.
+  - inversion H; subst. rewrite app_nil_r. assumption.
+  - destruct (gstep strict GG cap s a) as [s1 |] eqn:E; try discriminate.
+    replace (tr0 ++ a :: tr) with ((tr0 ++ [a]) ++ tr) by (rewrite <- app_assoc; reflexivity).
+    eapply IHtr; eauto. econstructor; eauto.
+Qed.
+
+Theorem valid_trace_sound : forall Rp Ra GG cap (tr : list (glabel Rp Ra)),
+  valid_trace Rp Ra GG cap tr = true ->
+  1 <= cap /\ wf_dag (gtopd GG) /\
+  exists s, grun_rel Rp Ra false GG cap tr s /\ gfinal s = true /\ bad (gtop s) = false /\ gover s = false.
+Proof.
+  intros Rp Ra GG cap tr H. unfold valid_trace in H.
+  apply andb_true_iff in H. destruct H as [H H3]. apply andb_true_iff in H. destruct H as [H1 H2].
+  apply Nat.leb_le in H1. apply wf_dagb_sound in H2.
+  destruct (grun Rp Ra false GG cap (ginit GG cap) tr) as [s |] eqn:E; try discriminate.
+  repeat (apply andb_true_iff in H3; destruct H3 as [H3 ?]).
+  split; auto. split; auto. exists s. split.
+  - apply (grun_sound Rp Ra false GG cap tr _ _ [] E). constructor.
+  - split. assumption. split. apply negb_true_iff. assumption. apply negb_true_iff. assumption.
+Qed.
+
+(* ... and every execution is accepted step by step: the checker is the transition relation *)
+Lemma grun_complete : forall Rp Ra strict GG cap tr s, grun_rel Rp Ra strict GG cap tr s ->
+  grun Rp Ra strict GG cap (ginit GG cap) tr = Some s.
+Proof.
+  assert (Happ : forall Rp Ra strict GG cap t1 t2 (s s1 : gstate Rp Ra),
+            grun Rp Ra strict GG cap s t1 = Some s1 -> grun Rp Ra strict GG cap s (t1 ++ t2) = grun Rp Ra strict GG cap s1 t2).
+  { induction t1; simpl; intros. inversion H; reflexivity.
+    destruct (gstep strict GG cap s a); try discriminate. eapply IHt1; eauto. }
+  induction 1. reflexivity.
+  rewrite (Happ _ _ _ _ _ _ _ _ _ IHgrun_rel). simpl. rewrite H0. reflexivity.
+Qed.
